@@ -2,7 +2,7 @@
 //! every step, and all snapshot-based monitors (contract C01/C09, structure C03, consistency C05,
 //! lower-layer protection C08, tombstones C10, error labelling C12, panics C13).
 
-use crate::cfg::{build, Built, Cfg, Role};
+use crate::cfg::{build, Cfg};
 use crate::errmon;
 use crate::gen::{gen_op, Domain, Universe};
 use crate::json::J;
@@ -132,37 +132,6 @@ pub fn avoid_match(avoid: &BTreeSet<String>, op: &Op, m: &Model, cfg: &Cfg) -> b
     false
 }
 
-fn lower_nodes(b: &Built) -> BTreeSet<usize> {
-    // every node that lives inside a layer idx >= 1 of any overlay
-    let mut lower = BTreeSet::new();
-    for n in &b.nodes {
-        if let Role::Layer { idx, .. } = &n.role {
-            if *idx >= 1 {
-                lower.insert(n.id);
-            }
-        }
-    }
-    // propagate to descendants
-    loop {
-        let mut changed = false;
-        for n in &b.nodes {
-            let parent = match &n.role {
-                Role::AltUnder { of, .. } | Role::Layer { of, .. } => Some(*of),
-                Role::Top => None,
-            };
-            if let Some(p) = parent {
-                if lower.contains(&p) && lower.insert(n.id) {
-                    changed = true;
-                }
-            }
-        }
-        if !changed {
-            break;
-        }
-    }
-    lower
-}
-
 type DeepState = BTreeMap<String, (bool, Vec<u8>, Option<SystemTime>, Option<SystemTime>)>;
 
 /// Deep state of one filesystem node read through its own root (type, bytes, created, modified)
@@ -257,13 +226,8 @@ fn run_history(spec: &Spec, idx: u64, acc: &mut Acc) {
         // O_APPEND semantics differ by design: seeks inside append sessions only on memory-backed configurations
         domain.append_seeks = false;
     }
-    let lowers = lower_nodes(&built);
-    let lower_roots: Vec<(usize, vfs::VfsPath)> = built
-        .nodes
-        .iter()
-        .filter(|n| matches!(&n.role, Role::Layer { idx, .. } if *idx >= 1))
-        .map(|n| (n.id, n.root.clone()))
-        .collect();
+    let lowers = built.lower_regions();
+    let lower_roots: Vec<(usize, vfs::VfsPath)> = built.lower_views();
     let mut lower_state: Vec<Option<DeepState>> = lower_roots.iter().map(|(_, r)| deep_state(r).ok()).collect();
 
     let read_buf = *rng.pick(&[1usize, 2, 7, 4096, 8192, 8193]);
@@ -311,6 +275,8 @@ fn run_history(spec: &Spec, idx: u64, acc: &mut Acc) {
     });
     check_markers(&h, 0, &snap, acc);
     let mut tombstones: BTreeSet<String> = BTreeSet::new();
+    let mut held: Vec<(String, Box<dyn vfs::SeekAndWrite + Send>)> = vec![];
+    let mut planned: std::collections::VecDeque<Op> = std::collections::VecDeque::new();
 
     let nsteps = rng.range(spec.steps.0, spec.steps.1);
     acc.evaluations += 1;
@@ -322,6 +288,48 @@ fn run_history(spec: &Spec, idx: u64, acc: &mut Acc) {
         // (state and reference have diverged once a genuine defect fired).
         let steered = idx % 4 != 0;
         let mut op = gen_op(&mut rng, &domain, &universe, gen_model);
+        if spec.contract.is_none() && domain.hold_handles {
+            if let Some(next) = planned.pop_front() {
+                op = next;
+            } else if !held.is_empty() && rng.chance(1, 6) {
+                op = Op::Publish(held[0].0.clone());
+            } else if !held.is_empty() && rng.chance(1, 2) {
+                // pull the rug from under the kept handle: operate on its path and on its parent directory
+                let hp = held[rng.below(held.len())].0.clone();
+                let par = parent_of(&hp);
+                let other = rng.pick(&universe.paths).clone();
+                op = match rng.below(9) {
+                    0 | 1 => Op::RemoveFile(hp),
+                    2 | 3 if !par.is_empty() => Op::RemoveDir(par),
+                    4 if !par.is_empty() => Op::RemoveDirAll(par),
+                    5 if !par.is_empty() => Op::CreateFile(par, vec![crate::ops::WStep::Write(b"now a file".to_vec())]),
+                    6 => Op::CreateDir(hp),
+                    7 if !par.is_empty() && !is_under(&other, &par) && other != par => Op::MoveDir(par, other),
+                    _ => Op::CreateDirAll(hp),
+                };
+            } else if held.len() < 2 && rng.chance(1, 9) {
+                // prefer an existing file or a free name in an existing directory
+                let cands: Vec<&String> = universe.paths.iter().filter(|p| matches!(gen_model.class(p), Class::File | Class::Absent)).collect();
+                let p = if cands.is_empty() { rng.pick(&universe.paths).clone() } else { (*rng.pick(&cands)).clone() };
+                let blen = rng.range(1, 9);
+                // half of the kept handles get a scripted rug-pull before they are published
+                let par = parent_of(&p);
+                if rng.chance(1, 2) && !par.is_empty() {
+                    let other = rng.pick(&universe.paths).clone();
+                    let file_at = |q: &str| Op::CreateFile(q.to_string(), vec![crate::ops::WStep::Write(b"now a file".to_vec())]);
+                    let plan: Vec<Op> = match rng.below(6) {
+                        0 => vec![Op::RemoveFile(p.clone()), Op::RemoveDir(par.clone()), file_at(&par), Op::Publish(p.clone())],
+                        1 => vec![Op::RemoveFile(p.clone()), Op::CreateDir(p.clone()), Op::Publish(p.clone())],
+                        2 => vec![Op::RemoveDirAll(par.clone()), Op::Publish(p.clone())],
+                        3 => vec![Op::RemoveDirAll(par.clone()), file_at(&par), Op::Publish(p.clone())],
+                        4 if !is_under(&other, &par) && other != par => vec![Op::MoveDir(par.clone(), other), Op::Publish(p.clone())],
+                        _ => vec![Op::RemoveFile(p.clone()), Op::RemoveDir(par.clone()), Op::CreateDir(par.clone()), Op::Publish(p.clone())],
+                    };
+                    planned.extend(plan);
+                }
+                op = Op::HoldOpen(p, rng.chance(1, 2), rng.bytes(blen, true));
+            }
+        }
         let mut tainted = false;
         if !spec.domain.avoid.is_empty() {
             let mut tries = 0;
@@ -352,7 +360,33 @@ fn run_history(spec: &Spec, idx: u64, acc: &mut Acc) {
                 built.ctl.arm(rng.range(1, 45) as u64, usize::MAX);
             }
         }
-        let res = exec(&built.root, &op);
+        let res = match &op {
+            Op::HoldOpen(p, append, bytes) => {
+                let path = crate::ops::at(&built.root, p);
+                match crate::panicmon::guard(|| -> Result<Box<dyn vfs::SeekAndWrite + Send>, vfs::VfsError> {
+                    let mut w = if *append { path.append_file()? } else { path.create_file()? };
+                    let _ = std::io::Write::write_all(&mut w, bytes);
+                    Ok(w)
+                }) {
+                    Ok(Ok(w)) => {
+                        held.push((p.clone(), w));
+                        Ok(Out::Unit)
+                    }
+                    Ok(Err(e)) => Err(ErrInfo::from_vfs(&e)),
+                    Err(pi) => Err(ErrInfo::from_panic(pi)),
+                }
+            }
+            Op::Publish(pp) if !held.iter().any(|h| &h.0 == pp) => Ok(Out::Unit),
+            Op::Publish(pp) => {
+                let i = held.iter().position(|h| &h.0 == pp).unwrap_or(0);
+                let (_, w) = held.remove(i);
+                match crate::panicmon::guard(move || drop(w)) {
+                    Ok(()) => Ok(Out::Unit),
+                    Err(pi) => Err(ErrInfo::from_panic(pi)),
+                }
+            }
+            _ => exec(&built.root, &op),
+        };
         if faulted {
             let (_, inj, _, hinj) = built.ctl.disarm();
             acc.count("steps_with_injected_fault", inj + hinj);
@@ -433,7 +467,7 @@ fn run_history(spec: &Spec, idx: u64, acc: &mut Acc) {
         });
 
         // ---- C08 lower layers / observers mutate nothing
-        for e in ev.iter().filter(|e| e.is_mutating() && lowers.contains(&e.node)) {
+        for e in ev.iter().filter(|e| e.is_mutating() && crate::cfg::event_in_regions(e, &lowers)) {
             acc.violate(Violation {
                 property: "C08",
                 signature: format!("lower-mutated|{}|{}|via:{}|{}", op.name(), clsig, e.method, h.family),
@@ -577,6 +611,9 @@ fn run_history(spec: &Spec, idx: u64, acc: &mut Acc) {
             acc.count("histories_ended_by_panic", 1);
             break;
         }
+    }
+    for (_, w) in held.drain(..) {
+        let _ = crate::panicmon::guard(move || drop(w));
     }
     if idx < 3 || verbose {
         acc.sample(
